@@ -136,3 +136,11 @@ package mvt
 //@   ensures f.Geometry == nil ==> result == nil && len(layer.Features) == old(len(layer.Features))
 //@   ensures result == nil && istype(f.Geometry, orb.Collection) ==> len(layer.Features) == old(len(layer.Features)) + len(as(f.Geometry, orb.Collection))
 //@   ensures result == nil && f.Geometry != nil && !istype(f.Geometry, orb.Collection) ==> len(layer.Features) == old(len(layer.Features)) + 1
+
+// ---------------------------------------------------------------- the feature message decoder (C05)
+// tag pairs index the layer's key and value tables only when both indices are in range; the protoscan
+// message and iterators are external (assumed total; a successful Iterator call returns an iterator)
+//@ extern github.com/paulmach/protoscan.(*Message).Iterator(m, iter) (it, err)
+//@   ensures err == nil ==> it != nil
+//@ func (*decoder).Feature(d, msg)
+//@   requires msg != nil
